@@ -124,6 +124,8 @@ class Builder:
             self.ram_layers.append(layer)
             return layer
         if k == 'disk':
+            if d.get('json_labels'):
+                self._init_roots(self.roots[d['root']], labels='JsonLabels')
             return c.CacheToDisk.simple(*d['names'], root=self.roots[d['root']]) if not d.get('impure') else \
                 self._disk_impure(d)
         if k == 'columns':
@@ -159,6 +161,14 @@ class Builder:
             return c.Chain(*layers)
         raise ValueError(k)
 
+    def _init_roots(self, root, labels=None):
+        from tarn.config import StorageConfig, init_storage
+        os.makedirs(root, exist_ok=True)
+        for name in ('index', 'storage'):
+            p = os.path.join(root, name)
+            if not os.path.exists(os.path.join(p, 'config.yml')):
+                init_storage(StorageConfig(hash='sha256', levels=[1, 31], labels=labels), p)
+
     def _disk_impure(self, d):
         c = self.c
         layer = c.CacheToDisk.simple(*d['names'], root=self.roots[d['root']])
@@ -174,7 +184,7 @@ class Builder:
         for p in (index, storage):
             if not os.path.exists(os.path.join(p, 'config.yml')):
                 os.makedirs(root, exist_ok=True)
-                init_storage(StorageConfig(hash='sha256', levels=[1, 31]), p)
+                init_storage(StorageConfig(hash='sha256', levels=[1, 31], labels='JsonLabels' if d.get('json_labels') else None), p)
         return self.c.CacheColumns(index, HashKeyStorage(DiskDict(storage)),
                                    ChainSerializer(JsonSerializer(), PickleSerializer()), d['names'],
                                    shard_size=d.get('shard'), impure=bool(d.get('impure')))
